@@ -118,6 +118,14 @@ class Rec(Sort):
         self.fields = fields
 
 
+class MatchS(Sort):
+    """an abstract re.Match object of the given compiled pattern (python expression evaluated in the module, or
+    'module:attr' / a callable returning the pattern)"""
+    def __init__(self, pattern_expr, method='search'):
+        self.pattern_expr, self.method = pattern_expr, method
+        self.name = f'Match[{pattern_expr}]'
+
+
 class TupleS(Sort):
     def __init__(self, *elems):
         self.elems = elems
